@@ -184,9 +184,12 @@ theorem bare_put_atomic (d : Disk) (n tok : String) (hd : noDangling d = true) (
   have hbl := hasBlobs_headTree d hh hcm
   unfold barePut bareAfterPut
   by_cases hsame : (headTree d).lookup n = some tok
-  · have hnd : noDangling d = true := noDangling_bare d hidx hh
-    simp only [hsame, ↓reduceIte]
-    rcases k with _|k <;> simp [crash, run, hold, hnd]
+  · simp only [hsame, ↓reduceIte]
+    rcases k with _|_|k
+    all_goals simp only [crash, run, apply, List.take_succ_cons, List.take_zero, List.take_nil, List.foldl_cons, List.foldl_nil]
+    all_goals exact ⟨Or.inl (viewBare_old d _ rfl (by intro o ho; simp [ho]) hh hcm),
+      noDangling_bare _ hidx (closedHead_mono (by intro o ho; simp [ho]) _ hh),
+      fun _ => viewBare_old d _ rfl (by intro o ho; simp [ho]) hh hcm⟩
   · simp only [hsame, ↓reduceIte]
     have hsub : ∀ o ∈ d.objs, o ∈ mkCommit (setKey (headTree d) n tok) d.head ::
         ([Obj.tree (setKey (headTree d) n tok), Obj.blob tok] ++ d.objs) := by intro o ho; simp [ho]
